@@ -44,7 +44,71 @@ def run_program(src):
     finally:
         shutil.rmtree(d, ignore_errors=True)
 
+# Reference oracles for spec functions that name "what the upstream implementation returns": on a concrete replay they
+# are evaluated by running the upstream function natively (the host Go toolchain compiles package math unchanged).
+ORACLES = {'spec_ldexpOrig': ('math', 'Ldexp', ('f64', 'int'), 'f64')}
+
+def native_oracle(pkg, fn, argtypes, rettype, args):
+    lits = ['math.Float64frombits(%d)' % a if t == 'f64' else 'int(%d)' % a for t, a in zip(argtypes, args)]
+    src = 'package main\n\nimport (\n\t"math"\n\t"%s"\n)\n\nvar _ = math.Float64bits\n\nfunc main() {\n\tr := %s.%s(%s)\n\tprintln("O", math.Float64bits(r))\n}\n' % (
+        pkg, pkg.split('/')[-1], fn, ', '.join(lits))
+    if pkg == 'math': src = src.replace('\t"math"\n\t"math"\n', '\t"math"\n')
+    d = tempfile.mkdtemp(prefix='gvc-oracle-')
+    try:
+        with open(os.path.join(d, 'go.mod'), 'w') as f: f.write('module gvcoracle\ngo 1.20\n')
+        with open(os.path.join(d, 'main.go'), 'w') as f: f.write(src)
+        p = subprocess.run(['go', 'run', '.'], cwd=d, env=ENV, stdout=subprocess.PIPE, stderr=subprocess.STDOUT, text=True, timeout=300)
+        m = re.search(r'O (\d+)', p.stdout)
+        if not m: raise NoReplay('native oracle failed: ' + p.stdout[-300:])
+        return int(m.group(1))
+    finally:
+        shutil.rmtree(d, ignore_errors=True)
+
+def instantiate(hyps, goal):
+    """instances of the universally quantified hypotheses at the ground applications of their trigger functions that occur
+    in the goal and the ground hypotheses (one round of matching on applications whose arguments are the bound variables)"""
+    ground = [h for h in hyps if not z3.is_quantifier(h)]
+    apps = {}
+    def collect(t, seen):
+        if t.get_id() in seen or z3.is_quantifier(t): return
+        seen.add(t.get_id())
+        if z3.is_app(t):
+            if t.num_args() > 0 and t.decl().kind() == z3.Z3_OP_UNINTERPRETED:
+                apps.setdefault(t.decl().name(), []).append(t)
+            for c in t.children(): collect(c, seen)
+    seen = set()
+    for t in ground + [goal]: collect(t, seen)
+    out = []
+    for h in hyps:
+        if not (z3.is_quantifier(h) and h.is_forall()): continue
+        n = h.num_vars(); body = h.body()
+        trig = []
+        def find(t, seen2):
+            if t.get_id() in seen2: return
+            seen2.add(t.get_id())
+            if z3.is_app(t):
+                if t.decl().kind() == z3.Z3_OP_UNINTERPRETED and t.num_args() > 0:
+                    idx = [z3.get_var_index(a) for a in t.children() if z3.is_var(a)]
+                    if len(set(idx)) == n: trig.append(t)
+                for c in t.children(): find(c, seen2)
+        find(body, set())
+        for tr in trig[:1]:
+            for g in apps.get(tr.decl().name(), []):
+                if g.decl() != tr.decl(): continue
+                sub = {}; ok = True
+                for a, b in zip(tr.children(), g.children()):
+                    if z3.is_var(a):
+                        i = z3.get_var_index(a)
+                        if i in sub and not sub[i].eq(b): ok = False
+                        sub[i] = b
+                    elif not a.eq(b): ok = False
+                if ok and len(sub) == n:
+                    # substitute_vars replaces Var(i) by the i-th argument
+                    out.append(z3.substitute_vars(body, *[sub[i] for i in range(n)]))
+    return ground + out
+
 class NativesReplayer:
+    replays_unknown = True      # (quantified axioms: candidates are searched and judged on the real code)
     def __init__(self, verifier, frame, entry, params, rnames, rtids, pkgpath, fname):
         self.v, self.fr, self.entry, self.params, self.rnames, self.rtids = verifier, frame, entry, params, rnames, rtids
         self.pkgpath, self.fname = pkgpath, fname
@@ -58,8 +122,13 @@ class NativesReplayer:
             return ('bool', bool(z3.is_true(m.eval(v, model_completion=True))))
         if isinstance(v, z3.ExprRef):
             r = m.eval(v, model_completion=True)
-            return ('int', r.as_signed_long() if z3.is_bv(r) else r.as_long())
+            tn = str(tt[tid].get('b') or tt[tid].get('s') or '')
+            return ('int', (r.as_long() if tn.startswith('uint') else r.as_signed_long()) if z3.is_bv(r) else r.as_long())
         raise NoReplay('parameter kind')
+
+    def show(self, cv):
+        if cv[0] == 'f64': return '%r (bits 0x%016x)' % (struct.unpack('<d', struct.pack('<Q', cv[1]))[0], cv[1])
+        return str(cv[1])
 
     def golit(self, c, tid):
         tn = self.v.tt[tid].get('b') or self.v.tt[tid]['s']
@@ -74,10 +143,25 @@ class NativesReplayer:
             return z3.fpBVToFP(z3.BitVecVal(bits, 64), F64)
         if tt.is_bool(tid):
             return z3.BoolVal(txt == 'true')
-        return z3.IntVal(int(txt))
+        return self.intval(int(txt), tid)
 
     def decide(self, e):
         s = z3.Solver(); s.set('timeout', 10000); s.add(z3.Not(e))
+        # spec functions that stand for the upstream implementation: evaluated natively on the concrete arguments
+        todo, seen = [e], set()
+        while todo:
+            t = todo.pop()
+            if t.get_id() in seen or not z3.is_app(t): continue
+            seen.add(t.get_id()); todo += t.children()
+            if t.decl().name() in ORACLES:
+                pkg, fn, ats, rt = ORACLES[t.decl().name()]
+                args = []
+                for at, a in zip(ats, t.children()):
+                    a = z3.simplify(a)
+                    args.append(z3.simplify(z3.fpToIEEEBV(a)).as_long() if at == 'f64' else a.as_long())
+                bits = native_oracle(pkg, fn, ats, rt, args)
+                s.add(t == z3.fpBVToFP(z3.BitVecVal(bits, 64), F64))
+                self.oracle_note = '%s.%s run natively (upstream implementation) as the reference' % (pkg, fn)
         r = s.check()
         return True if r == z3.unsat else (False if r == z3.sat else None)
 
@@ -85,36 +169,101 @@ class NativesReplayer:
         s = z3.Solver(); s.set('timeout', 60000); s.add(ob.hyps)
         if ob.kind == 'proof': s.add(z3.Not(ob.goal))
         import signal
-        signal.alarm(30)          # (replays run in a forked child: a solver call that ignores its timeout ends the child, not the check)
-        r0 = s.check()
-        signal.alarm(0)
-        if r0 != z3.sat:
+        quant = any(z3.is_quantifier(h) for h in ob.hyps) and ob.kind == 'proof'
+        r0 = z3.unknown
+        if not (quant and ob.answer == 'unknown'):
+            signal.alarm(30)          # (replays run in a forked child: a solver call that ignores its timeout ends the child, not the check)
+            r0 = s.check()
+            signal.alarm(0)
+        if r0 == z3.sat:
+            return self.replay_models([s.model()])
+        if not quant:
             return {'violates': False, 'note': 'in-process solver did not produce a model'}
-        m = s.model()
+        # quantified axioms: the solver cannot certify a model.  Candidates from the ground hypotheses plus the axiom instances
+        # at the terms of the obligation, spread over magnitude classes of the floating-point parameters; every candidate is
+        # judged on the real code (one compiled program for all of them), so a spurious one costs nothing else.
+        inst = instantiate(ob.hyps, ob.goal)
+        s = z3.Solver(); s.set('timeout', 10000); s.add(inst); s.add(z3.Not(ob.goal))
+        fps = [v for (n, t, v, isrecv) in self.params if isinstance(v, z3.ExprRef) and z3.is_fp(v)]
+        def c(x): return z3.FPVal(x, F64)
+        classes = [lambda v: z3.BoolVal(True), lambda v: z3.fpGEQ(z3.fpAbs(v), c(2.0)), lambda v: z3.And(z3.fpLEQ(z3.fpAbs(v), c(0.5)), z3.Not(z3.fpIsZero(v))),
+                   lambda v: z3.fpGEQ(z3.fpAbs(v), c(2.0 ** 80)), lambda v: z3.fpLT(v, c(0.0)), lambda v: z3.fpIsSubnormal(v)]
+        models = []
+        for cls in classes:
+            s.push()
+            for v in fps: s.add(cls(v))
+            signal.alarm(20); r = s.check(); signal.alarm(0)
+            if r == z3.sat:
+                m = s.model(); models.append(m)
+            s.pop()
+            if r == z3.sat:
+                blk = [v != m.eval(v, model_completion=True) for (n, t, v, isrecv) in self.params if isinstance(v, z3.ExprRef)]
+                if blk: s.add(z3.Or(blk))
+            if not fps and models: break
+        if not models:
+            return {'violates': False, 'note': 'no candidate model from the ground hypotheses and the axiom instances'}
+        res = self.replay_models(models)
+        res['candidates'] = len(models)
+        if res.get('violates'):
+            res['note'] = 'candidate model from the ground hypotheses and the axiom instances at the terms of the obligation, confirmed on the real code'
+        return res
+
+    def replay_models(self, models):
+        tt = self.v.tt
         try:
-            ins = [(n, t, self.conc(m, v, t)) for (n, t, v, isrecv) in self.params]
             shortpkg = self.pkgpath.split('/')[-1]
-            args = ', '.join(self.golit(c, t) for n, t, c in ins)
-            tt = self.v.tt
-            prints = []
-            for i, rt in enumerate(self.rtids):
-                if tt.is_float(rt): prints.append('b%d := math.Float64bits(r%d); println("R%d", uint32(b%d>>32), uint32(b%d))' % (i, i, i, i, i))
-                else: prints.append('println("R%d", r%d)' % (i, i))
-            lhs = ', '.join('r%d' % i for i in range(len(self.rtids)))
+            allins, funcs = [], []
+            for k, m in enumerate(models):
+                ins = [(n, t, self.conc(m, v, t)) for (n, t, v, isrecv) in self.params]
+                allins.append(ins)
+                args = ', '.join(self.golit(c, t) for n, t, c in ins)
+                prints = []
+                for i, rt in enumerate(self.rtids):
+                    if tt.is_float(rt): prints.append('b%d := math.Float64bits(r%d); println("K%d R%d", uint32(b%d>>32), uint32(b%d))' % (i, i, k, i, i, i))
+                    else: prints.append('println("K%d R%d", r%d)' % (k, i, i))
+                lhs = ', '.join('r%d' % i for i in range(len(self.rtids)))
+                funcs.append('func c%d() {\n\tdefer func() { if e := recover(); e != nil { println("K%d PANIC") } }()\n\t%s := %s.%s(%s)\n\t%s\n}\n' % (
+                    k, k, lhs, shortpkg, self.fname, args, '\n\t'.join(prints)))
             imports = '"math"' if self.pkgpath == 'math' else '"math"\n\t"%s"' % self.pkgpath
-            src = 'package main\n\nimport (\n\t%s\n)\n\nvar _ = math.Float64bits\n\nfunc main() {\n\tdefer func() { if e := recover(); e != nil { println("PANIC") } }()\n\t%s := %s.%s(%s)\n\t%s\n}\n' % (
-                imports, lhs, shortpkg, self.fname, args, '\n\t'.join(prints))
-            out = run_program(src)
+            src = 'package main\n\nimport (\n\t%s\n)\n\nvar _ = math.Float64bits\n\n%s\nfunc main() {\n%s}\n' % (
+                imports, '\n'.join(funcs), ''.join('\tc%d()\n' % k for k in range(len(models))))
+            allout = run_program(src)
         except NoReplay as e:
             return {'violates': False, 'note': 'not replayable: %s' % e}
-        res = {'program': src, 'inputs': {n: (('0x%016x' % c[1]) if c[0] == 'f64' else c[1]) for n, t, c in ins}, 'output': out.strip(),
+        last = None
+        for k, ins in enumerate(allins):
+            out = '\n'.join(l[len('K%d ' % k):] for l in allout.splitlines() if l.startswith('K%d ' % k))
+            last = self.judge(src, ins, out, k)
+            if last.get('violates'):
+                return last
+        return last
+
+    def judge(self, src, ins, out, k):
+        tt = self.v.tt
+        res = {'program': src, 'candidate': k, 'inputs': {n: (('0x%016x' % c[1]) if c[0] == 'f64' else c[1]) for n, t, c in ins}, 'output': out.strip(),
                'harness': 'gopherjs built from /repo, program compiled with it and run under node', 'violated_clauses': []}
         c = self.fr.contract
+        # the contract is evaluated in its own arithmetic mode (mode bv: integers are bit-vectors of the type's width)
+        saved_mode = self.v.mode
+        self.v.mode = c.get('mode')[0].text.strip() if c.get('mode') else saved_mode
+        try:
+            return self.judge2(res, c, ins, out)
+        finally:
+            self.v.mode = saved_mode
+
+    def intval(self, n, tid):
+        if self.v.mode == 'bv':
+            w, _ = self.v.tt.intinfo(tid) or (64, True)
+            return z3.BitVecVal(n, w or 64)
+        return z3.IntVal(n)
+
+    def judge2(self, res, c, ins, out):
+        tt = self.v.tt
         try:
             pre = State(); pre.meta['concrete'] = True; pre.entry = pre
             binds = {}
             for (n, t, cv) in ins:
-                binds[n] = z3.fpBVToFP(z3.BitVecVal(cv[1], 64), F64) if cv[0] == 'f64' else (z3.BoolVal(cv[1]) if cv[0] == 'bool' else z3.IntVal(cv[1]))
+                binds[n] = z3.fpBVToFP(z3.BitVecVal(cv[1], 64), F64) if cv[0] == 'f64' else (z3.BoolVal(cv[1]) if cv[0] == 'bool' else self.intval(cv[1], t))
             envpre = SpecEnv(pre, binds, pre)
             for cl in c.get('requires'):
                 if self.decide(self.v.sev_bool(envpre, cl.expr)) is False:
@@ -139,8 +288,10 @@ class NativesReplayer:
                     except (Unsupported, KeyError, z3.Z3Exception):
                         d = None
                     if d is False:
-                        res['violated_clauses'].append('ensures ' + cl.text)
+                        res['violated_clauses'].append('ensures %s  [%s.%s(%s) -> %s]' % (cl.text, self.pkgpath, self.fname,
+                            ', '.join('%s=%s' % (n, self.show(cv)) for n, t, cv in ins), out.strip().replace('\n', '; ')))
         except (NoReplay, Unsupported) as e:
             res['note'] = 'contract could not be evaluated concretely: %r' % (e,)
         res['violates'] = bool(res['violated_clauses'])
+        if getattr(self, 'oracle_note', None): res['reference'] = self.oracle_note
         return res
